@@ -663,6 +663,8 @@ class SpecEval(object):
                           z3.ForAll([k], z3.Implies(z3.And(0 <= k, k < a.shape[0]), a.term[k] == b.term[k])))
         if f == 'cmul':
             return cmul(args[0], args[1])
+        if f == 'cplx_one':
+            return z3.Const('cplx_one', CPLX)
         if f == 'min':
             return z3.If(as_num(args[0]) <= as_num(args[1]), as_num(args[0]), as_num(args[1]))
         if f == 'max':
